@@ -1,6 +1,6 @@
 /-
   C02 with path-kind changes — the in-place commit yields exactly the new build also when paths change kind
-  (file / directory / symlink) between the builds, outside the shapes of finding F8.
+  (file / directory / symlink) between the builds, outside the shapes of finding F8 that are left.
 
   `commit_correct_partial` (Props/C02.lean) assumes `NoKindClash old new`: NO path changes kind.  That is much
   stronger than needed.  Here the hypothesis is replaced by `BenignKindChanges old new w`, which allows
@@ -8,37 +8,47 @@
       symlink -> file      the new file being staged OR the output of a transposition (a `move` or a `copy`)
       emptydir -> file     likewise
       file -> dir          the old file not being a transposition source
-      file -> symlink      likewise
+      file -> symlink      whatever happens to the old file (it may be renamed or copied elsewhere)
       symlink -> dir
-      dir -> symlink       no transposition source below the old directory; whatever the symlink points to
+      dir -> symlink       whatever lies below the old directory (files of it may be renamed or copied out),
+                           whatever the symlink points to
 
   provided a new directory that replaces an old file or symlink is listed before the new directories below it
   (`dirOrder`; `tlc.Walk` lists parents first).  `NoKindClash` implies `BenignKindChanges` (`NoKindClash.benign`),
   so `commit_correct_partial` is a corollary (`commit_correct_partial_of_kinds`).
 
-  Every clause is needed — each is violated by an instance on which the model's `commit` fails or yields a wrong
-  tree (second half of the file, machine-checked):
+  Every clause is needed — each is violated by an instance on which the model's `commit` fails (second half of
+  the file, machine-checked):
 
       F8 (1) dir -> file, new file, non-empty directory          `f8_1_*`   error (ENOTEMPTY)
       F8 (2) dir -> file, renamed file, non-empty directory      `f8_2_*`   error (ENOTEMPTY)
       F8 (3) file -> dir holding the old file renamed            `f8_3_*`   error (EISDIR)
-      F8 (4) dir -> symlink, a file of the directory renamed out `f8_4_*`   error (ENOENT)
   and, found while looking for the right predicate (not among the four recorded shapes):
-      (8) file -> symlink, the old file renamed elsewhere         `g8_*`     success reported, the SYMLINK renamed
       (9) file -> dir, new directories listed child first         `g9_*`     error (ENOTDIR)  [model only]
 
-  Three more instances found on the way were genuine defects of the code (findings F25, F26).  The code has been
-  repaired, the model follows, the clauses that excluded them are gone, and the instances are kept as POSITIVE
-  ones (the commit now yields exactly the new build, `g5_ok`, `g6_ok`, `g7_ok`):
+  Five more instances — the fourth recorded shape of F8 among them — were genuine defects of the code (findings
+  F25, F26, F27).  The code has been repaired, the model follows, the clauses that excluded them are gone, and the
+  instances are kept as POSITIVE ones (the commit now yields exactly the new build, `g5_ok`, `g6_ok`, `g7_ok`,
+  `f8_4_ok`, `g8_ok`):
       (5) dir -> symlink, ghost reached THROUGH the new symlink   `g5_*`     was: success reported, a NEW file deleted
       (6) symlink -> file written by a transposition COPY         `g6_*`     was: success reported, symlink still there
       (7) emptydir -> file written by a transposition COPY        `g7_*`     was: error (EISDIR)
+      F8 (4) dir -> symlink, a file of the directory renamed out `f8_4_*`   was: error (ENOENT)
+      (8) file -> symlink, the old file renamed elsewhere         `g8_*`     was: success reported, the SYMLINK renamed
   F25: `deleteGhosts` now skips a ghost below a path that is a file or a symlink of the new build, so the second
   half of the former `dirToSymlink` clause ("the old paths below the directory are unreachable through the new
   symlink": `DeadEnd`) is gone.  F26: `copy` now removes a destination that is not a regular file before writing
   (as `move` always did), so the former `outputs` clause ("a transposition output does not land on an old
   directory or symlink") is gone altogether: what is left of it — an old directory on which an output lands is
-  empty — is an instance of `emptyDir` (`BenignKindChanges.outputs`).
+  empty — is an instance of `emptyDir` (`BenignKindChanges.outputs`).  F27: `Commit` now puts the new symlinks in
+  place AFTER the transpositions, the staged moves and the overlays (`ensureDirs` … `applyOverlays`,
+  `ensureSymlinks`, `deleteGhosts`) instead of together with the directories at the start, so what a new symlink
+  replaces is still there while the files are renamed and copied: the first half of `dirToSymlink` ("no
+  transposition source below an old directory that becomes a symlink") is gone, and so is the second half of
+  `sources` ("a transposition source does not become a symlink").
+
+  The reordering of F27 does no harm inside `BenignKindChanges` (the theorem), and outside only within the failing
+  classes F8 (1)-(3): see "what the reordering changes OUTSIDE `BenignKindChanges`" (`h10_*`, `h11_*`).
 
   What `BenignKindChanges` still excludes although the model handles it: see "what remains" at the end of the
   file.
@@ -58,19 +68,22 @@ def outputsOf (old new : Build) (w : Work) : List Path :=
     | _, _ => none
 
 /-- Benign kind changes: what the commit needs of the paths that change kind between the builds.
-    (`isPrefix p q` = "`q` lies strictly below `p`".) -/
+    (`isPrefix p q` = "`q` lies strictly below `p`".)
+
+    Nothing is asked of a path that becomes a SYMLINK: since the repair of finding F27 the new symlinks are put
+    in place after the transpositions, the staged moves and the overlays, so whatever stood there — a file, or a
+    directory with all that is below it — is still in place while files are renamed and copied out of it, and
+    goes away (`os.RemoveAll`) afterwards.  (The old paths below it are ghosts; since the repair of finding F25
+    `deleteGhosts` skips them instead of looking them up THROUGH the new symlink, so nothing is asked of the
+    symlink's destination either.)  The former clause `dirToSymlink` (no transposition source below an old
+    directory that becomes a symlink) is gone, and `sources` no longer mentions the new symlinks. -/
 structure BenignKindChanges (old new : Build) (w : Work) : Prop where
   /-- dir → file: the old directory is empty (the destination is removed with `os.Remove`, by the staged move
       as well as by `move` and — since the repair of finding F26 — `copy` of the transpositions) -/
   emptyDir : ∀ p ∈ old.dirs, p ∈ new.files.map (·.1) → ∀ q ∈ allPaths old, isPrefix p q = false
-  /-- file → dir, file → symlink: the old file is not the source of a transposition (it is cleared by
-      `ensureDirsAndSymlinks` before the transpositions run) -/
-  sources : ∀ p ∈ sourcesOf old new w, p ∉ new.dirs ∧ p ∉ new.symlinks.map (·.1)
-  /-- dir → symlink: the directory is cleared with `os.RemoveAll` before the transpositions run, so no source
-      lies below it.  (The old paths below it are ghosts; since the repair of finding F25 `deleteGhosts` skips
-      them instead of looking them up THROUGH the new symlink, so nothing is asked of the symlink's
-      destination.) -/
-  dirToSymlink : ∀ e ∈ new.symlinks, e.1 ∈ old.dirs → ∀ q ∈ sourcesOf old new w, isPrefix e.1 q = false
+  /-- file → dir: the old file is not the source of a transposition (it is cleared by `ensureDirs` before the
+      transpositions run) -/
+  sources : ∀ p ∈ sourcesOf old new w, p ∉ new.dirs
   /-- file → dir, symlink → dir: the replaced path is listed before the new directories below it -/
   dirOrder : new.dirs.Pairwise (fun a b => isPrefix b a = true →
     b ∉ old.files.map (·.1) ∧ b ∉ old.symlinks.map (·.1))
@@ -89,17 +102,13 @@ theorem allPaths_eq (b : Build) : allPaths b = Commit.pathsOf b := rfl
 
 theorem BenignKindChanges.toBKC {old new : Build} {w : Work} (h : BenignKindChanges old new w) :
     Commit.BKC old new w := by
-  refine ⟨?_, ?_, ?_, h.dirOrder⟩
+  refine ⟨?_, ?_, h.dirOrder⟩
   · intro p hd hf q hq
     exact h.emptyDir p hd hf q hq
   · intro p hp
     apply h.sources
     rw [sourcesOf_eq]
     exact hp
-  · intro e he hd q hq
-    apply h.dirToSymlink e he hd
-    rw [sourcesOf_eq]
-    exact hq
 
 /-- What is left of the former clause `outputs` (a transposition output does not land on an old directory or
     symlink): an output may land on an old symlink, and on an old directory provided that one is empty — which
@@ -159,14 +168,8 @@ theorem NoKindClash.benign {old new : Build} (w : Work) (hold : BuildWF old) (hn
   constructor
   · intro p hd hf
     cases hk _ _ _ (kindOf_dir' hd) (kindOf_file' hnew hf)
-  · intro p hp
-    constructor
-    · intro h
-      cases hk _ _ _ (kindOf_file' hold (hsrc p hp)) (kindOf_dir' h)
-    · intro h
-      cases hk _ _ _ (kindOf_file' hold (hsrc p hp)) (kindOf_symlink' hnew h)
-  · intro e he hd
-    cases hk _ _ _ (kindOf_dir' hd) (kindOf_symlink' hnew (List.mem_map.mpr ⟨e, he, rfl⟩))
+  · intro p hp h
+    cases hk _ _ _ (kindOf_file' hold (hsrc p hp)) (kindOf_dir' h)
   · apply List.pairwise_of_forall_mem_list
     intro a _ b hb _
     constructor
@@ -228,11 +231,10 @@ theorem WorkOK.of_check {old new : Build} {w : Work}
 /-- `BenignKindChanges` on a literal instance: all clauses are decidable -/
 theorem BenignKindChanges.of_check {old new : Build} {w : Work}
     (emptyDir : ∀ p ∈ old.dirs, p ∈ new.files.map (·.1) → ∀ q ∈ allPaths old, isPrefix p q = false)
-    (sources : ∀ p ∈ sourcesOf old new w, p ∉ new.dirs ∧ p ∉ new.symlinks.map (·.1))
-    (dirToSymlink : ∀ e ∈ new.symlinks, e.1 ∈ old.dirs → ∀ q ∈ sourcesOf old new w, isPrefix e.1 q = false)
+    (sources : ∀ p ∈ sourcesOf old new w, p ∉ new.dirs)
     (dirOrder : new.dirs.Pairwise (fun a b => isPrefix b a = true →
       b ∉ old.files.map (·.1) ∧ b ∉ old.symlinks.map (·.1))) : BenignKindChanges old new w :=
-  ⟨emptyDir, sources, dirToSymlink, dirOrder⟩
+  ⟨emptyDir, sources, dirOrder⟩
 
 /-- a path that changes kind: the instance is outside `NoKindClash` -/
 theorem not_noKindClash {old new : Build} (p : Path) (k k' : Kind) (h1 : kindOf old p = some k)
@@ -262,7 +264,7 @@ theorem b1_work : WorkOK b1Old b1New b1Work :=
   WorkOK.of_check (by decide) (by decide) (by decide) (by decide) (by decide) (by decide) (by decide)
     (by decide) (by decide)
 theorem b1_benign : BenignKindChanges b1Old b1New b1Work :=
-  BenignKindChanges.of_check (by decide) (by decide) (by decide) (by decide)
+  BenignKindChanges.of_check (by decide) (by decide) (by decide)
 theorem b1_clash : ¬ NoKindClash b1Old b1New :=
   not_noKindClash ["s"] .symlink .file (by decide) (by decide) (by decide)
 theorem b1_ok : ∃ t', commit b1Old b1New b1Work [["k"]] [["k"]] (treeOfBuild b1Old) = .ok t' ∧ Holds t' b1New :=
@@ -279,7 +281,7 @@ theorem b2_work : WorkOK b2Old b2New b2Work :=
   WorkOK.of_check (by decide) (by decide) (by decide) (by decide) (by decide) (by decide) (by decide)
     (by decide) (by decide)
 theorem b2_benign : BenignKindChanges b2Old b2New b2Work :=
-  BenignKindChanges.of_check (by decide) (by decide) (by decide) (by decide)
+  BenignKindChanges.of_check (by decide) (by decide) (by decide)
 theorem b2_clash : ¬ NoKindClash b2Old b2New :=
   not_noKindClash ["s"] .file .symlink (by decide) (by decide) (by decide)
 theorem b2_ok : ∃ t', commit b2Old b2New b2Work [["k"]] [["k"]] (treeOfBuild b2Old) = .ok t' ∧ Holds t' b2New :=
@@ -296,7 +298,7 @@ theorem b3_work : WorkOK b3Old b3New b3Work :=
   WorkOK.of_check (by decide) (by decide) (by decide) (by decide) (by decide) (by decide) (by decide)
     (by decide) (by decide)
 theorem b3_benign : BenignKindChanges b3Old b3New b3Work :=
-  BenignKindChanges.of_check (by decide) (by decide) (by decide) (by decide)
+  BenignKindChanges.of_check (by decide) (by decide) (by decide)
 theorem b3_clash : ¬ NoKindClash b3Old b3New :=
   not_noKindClash ["s"] .symlink .dir (by decide) (by decide) (by decide)
 theorem b3_ok : ∃ t', commit b3Old b3New b3Work [["k"]] [["k"]] (treeOfBuild b3Old) = .ok t' ∧ Holds t' b3New :=
@@ -313,7 +315,7 @@ theorem b4_work : WorkOK b4Old b4New b4Work :=
   WorkOK.of_check (by decide) (by decide) (by decide) (by decide) (by decide) (by decide) (by decide)
     (by decide) (by decide)
 theorem b4_benign : BenignKindChanges b4Old b4New b4Work :=
-  BenignKindChanges.of_check (by decide) (by decide) (by decide) (by decide)
+  BenignKindChanges.of_check (by decide) (by decide) (by decide)
 theorem b4_clash : ¬ NoKindClash b4Old b4New :=
   not_noKindClash ["e"] .dir .file (by decide) (by decide) (by decide)
 theorem b4_ok : ∃ t', commit b4Old b4New b4Work [["k"]] [["k"]] (treeOfBuild b4Old) = .ok t' ∧ Holds t' b4New :=
@@ -330,7 +332,7 @@ theorem b5_work : WorkOK b5Old b5New b5Work :=
   WorkOK.of_check (by decide) (by decide) (by decide) (by decide) (by decide) (by decide) (by decide)
     (by decide) (by decide)
 theorem b5_benign : BenignKindChanges b5Old b5New b5Work :=
-  BenignKindChanges.of_check (by decide) (by decide) (by decide) (by decide)
+  BenignKindChanges.of_check (by decide) (by decide) (by decide)
 theorem b5_clash : ¬ NoKindClash b5Old b5New :=
   not_noKindClash ["f"] .file .dir (by decide) (by decide) (by decide)
 theorem b5_ok : ∃ t', commit b5Old b5New b5Work [["k"]] [["k"]] (treeOfBuild b5Old) = .ok t' ∧ Holds t' b5New :=
@@ -348,7 +350,7 @@ theorem b6_work : WorkOK b6Old b6New b6Work :=
   WorkOK.of_check (by decide) (by decide) (by decide) (by decide) (by decide) (by decide) (by decide)
     (by decide) (by decide)
 theorem b6_benign : BenignKindChanges b6Old b6New b6Work :=
-  BenignKindChanges.of_check (by decide) (by decide) (by decide) (by decide)
+  BenignKindChanges.of_check (by decide) (by decide) (by decide)
 theorem b6_clash : ¬ NoKindClash b6Old b6New :=
   not_noKindClash ["d"] .dir .symlink (by decide) (by decide) (by decide)
 theorem b6_ok : ∃ t', commit b6Old b6New b6Work [["k"]] [["k"]] (treeOfBuild b6Old) = .ok t' ∧ Holds t' b6New :=
@@ -362,7 +364,7 @@ theorem b6a_work : WorkOK b6Old b6aNew b6Work :=
   WorkOK.of_check (by decide) (by decide) (by decide) (by decide) (by decide) (by decide) (by decide)
     (by decide) (by decide)
 theorem b6a_benign : BenignKindChanges b6Old b6aNew b6Work :=
-  BenignKindChanges.of_check (by decide) (by decide) (by decide) (by decide)
+  BenignKindChanges.of_check (by decide) (by decide) (by decide)
 theorem b6a_ok : ∃ t', commit b6Old b6aNew b6Work [["k"]] [["k"]] (treeOfBuild b6Old) = .ok t' ∧
     Holds t' b6aNew :=
   commit_correct_kinds_partial _ _ _ _ _ b6_old_wf b6a_new_wf b6a_benign b6a_work (by decide) (by decide)
@@ -378,7 +380,7 @@ theorem b6f_work : WorkOK b6fOld b6fNew b6fWork :=
   WorkOK.of_check (by decide) (by decide) (by decide) (by decide) (by decide) (by decide) (by decide)
     (by decide) (by decide)
 theorem b6f_benign : BenignKindChanges b6fOld b6fNew b6fWork :=
-  BenignKindChanges.of_check (by decide) (by decide) (by decide) (by decide)
+  BenignKindChanges.of_check (by decide) (by decide) (by decide)
 theorem b6f_ok : ∃ t', commit b6fOld b6fNew b6fWork [["b"]] [["b"]] (treeOfBuild b6fOld) = .ok t' ∧
     Holds t' b6fNew :=
   commit_correct_kinds_partial _ _ _ _ _ b6f_old_wf b6f_new_wf b6f_benign b6f_work (by decide) (by decide)
@@ -394,7 +396,7 @@ theorem b6e_work : WorkOK b6eOld b6eNew b6eWork :=
   WorkOK.of_check (by decide) (by decide) (by decide) (by decide) (by decide) (by decide) (by decide)
     (by decide) (by decide)
 theorem b6e_benign : BenignKindChanges b6eOld b6eNew b6eWork :=
-  BenignKindChanges.of_check (by decide) (by decide) (by decide) (by decide)
+  BenignKindChanges.of_check (by decide) (by decide) (by decide)
 theorem b6e_ok : ∃ t', commit b6eOld b6eNew b6eWork [["b", "x"]] [["b", "x"]] (treeOfBuild b6eOld) = .ok t' ∧
     Holds t' b6eNew :=
   commit_correct_kinds_partial _ _ _ _ _ b6e_old_wf b6e_new_wf b6e_benign b6e_work (by decide) (by decide)
@@ -421,7 +423,7 @@ theorem b7_work : WorkOK b7Old b7New b7Work :=
   WorkOK.of_check (by decide) (by decide) (by decide) (by decide) (by decide) (by decide) (by decide)
     (by decide) (by decide)
 theorem b7_benign : BenignKindChanges b7Old b7New b7Work :=
-  BenignKindChanges.of_check (by decide) (by decide) (by decide) (by decide)
+  BenignKindChanges.of_check (by decide) (by decide) (by decide)
 theorem b7_sources : sourcesOf b7Old b7New b7Work = [["b"], ["a"]] := by decide
 theorem b7_ok (order₁ order₂ : List Path) (ho₁ : order₁.Perm [["b"], ["a"]]) (ho₂ : order₂.Perm [["b"], ["a"]]) :
     ∃ t', commit b7Old b7New b7Work order₁ order₂ (treeOfBuild b7Old) = .ok t' ∧ Holds t' b7New :=
@@ -512,20 +514,27 @@ theorem g5_hyps : OtherHyps g5Old g5New g5Work [["b", "f"]] [["b", "f"]] :=
       (by decide) (by decide), by decide, by decide⟩
 /-- the instance is inside `BenignKindChanges` now that nothing is asked of the symlink's destination -/
 theorem g5_benign : BenignKindChanges g5Old g5New g5Work :=
-  BenignKindChanges.of_check (by decide) (by decide) (by decide) (by decide)
+  BenignKindChanges.of_check (by decide) (by decide) (by decide)
 theorem g5_clash : ¬ NoKindClash g5Old g5New :=
   not_noKindClash ["a"] .dir .symlink (by decide) (by decide) (by decide)
 
-theorem g5_e1 : ensureAll g5New (treeOfBuild g5Old) = .ok g5T4 := eq_of_yields (by decide +kernel)
-theorem g5_e2 : applyTranspositions g5Old g5New g5Work [["b", "f"]] [["b", "f"]] g5T4 = .ok g5T4 :=
+/-- `b` is there already; the transposition `b/f → b/f` is a no-op; nothing is staged or patched -/
+theorem g5_e1 : g5New.dirs.foldlM ensureDir (treeOfBuild g5Old) = .ok (treeOfBuild g5Old) :=
   eq_of_yields (by decide +kernel)
-theorem g5_e3 : applyMoves g5New g5Work g5T4 = .ok g5T4 := eq_of_yields (by decide +kernel)
-theorem g5_e4 : applyOverlays g5New g5Work g5T4 = .ok g5T4 := eq_of_yields (by decide +kernel)
+theorem g5_e2 : applyTranspositions g5Old g5New g5Work [["b", "f"]] [["b", "f"]] (treeOfBuild g5Old) =
+    .ok (treeOfBuild g5Old) := eq_of_yields (by decide +kernel)
+theorem g5_e3 : applyMoves g5New g5Work (treeOfBuild g5Old) = .ok (treeOfBuild g5Old) :=
+  eq_of_yields (by decide +kernel)
+theorem g5_e4 : applyOverlays g5New g5Work (treeOfBuild g5Old) = .ok (treeOfBuild g5Old) :=
+  eq_of_yields (by decide +kernel)
+/-- the directory `a` goes with `a/f` (`os.RemoveAll`), the symlink takes its place -/
+theorem g5_e5 : g5New.symlinks.foldlM (fun t (p, d) => ensureSymlink t p d) (treeOfBuild g5Old) = .ok g5T4 :=
+  eq_of_yields (by decide +kernel)
 /-- the ghost `a/f` lies below the new symlink `a`: it is skipped, `b/f` stays -/
-theorem g5_e5 : deleteGhosts g5Old g5New g5T4 = .ok g5T4 := eq_of_yields (by decide +kernel)
+theorem g5_e6 : deleteGhosts g5Old g5New g5T4 = .ok g5T4 := eq_of_yields (by decide +kernel)
 
 theorem g5_commit : commit g5Old g5New g5Work [["b", "f"]] [["b", "f"]] (treeOfBuild g5Old) = .ok g5T4 := by
-  simp only [commit, bind, Except.bind, g5_e1, g5_e2, g5_e3, g5_e4, g5_e5]
+  simp only [commit, bind, Except.bind, g5_e1, g5_e2, g5_e3, g5_e4, g5_e5, g5_e6]
 
 /-- the commit yields exactly the new build: `b/f` is still there -/
 theorem g5_ok : ∃ t', commit g5Old g5New g5Work [["b", "f"]] [["b", "f"]] (treeOfBuild g5Old) = .ok t' ∧
@@ -555,20 +564,22 @@ theorem g6_hyps : OtherHyps g6Old g6New g6Work [["b"]] [["b"]] :=
       (by decide) (by decide), by decide, by decide⟩
 /-- the instance is inside `BenignKindChanges` now that nothing is asked of the transposition outputs -/
 theorem g6_benign : BenignKindChanges g6Old g6New g6Work :=
-  BenignKindChanges.of_check (by decide) (by decide) (by decide) (by decide)
+  BenignKindChanges.of_check (by decide) (by decide) (by decide)
 theorem g6_clash : ¬ NoKindClash g6Old g6New :=
   not_noKindClash ["s"] .symlink .file (by decide) (by decide) (by decide)
 
-theorem g6_e1 : ensureAll g6New (treeOfBuild g6Old) = .ok g6T0 := eq_of_yields (by decide +kernel)
+theorem g6_e1 : g6New.dirs.foldlM ensureDir (treeOfBuild g6Old) = .ok g6T0 := eq_of_yields (by decide +kernel)
 /-- the copy `b → s` removes the symlink `s` and creates the file -/
 theorem g6_e2 : applyTranspositions g6Old g6New g6Work [["b"]] [["b"]] g6T0 = .ok g6T2 :=
   eq_of_yields (by decide +kernel)
 theorem g6_e3 : applyMoves g6New g6Work g6T2 = .ok g6T2 := eq_of_yields (by decide +kernel)
 theorem g6_e4 : applyOverlays g6New g6Work g6T2 = .ok g6T5 := eq_of_yields (by decide +kernel)
-theorem g6_e5 : deleteGhosts g6Old g6New g6T5 = .ok g6T5 := eq_of_yields (by decide +kernel)
+theorem g6_e5 : g6New.symlinks.foldlM (fun t (p, d) => ensureSymlink t p d) g6T5 = .ok g6T5 :=
+  eq_of_yields (by decide +kernel)
+theorem g6_e6 : deleteGhosts g6Old g6New g6T5 = .ok g6T5 := eq_of_yields (by decide +kernel)
 
 theorem g6_commit : commit g6Old g6New g6Work [["b"]] [["b"]] (treeOfBuild g6Old) = .ok g6T5 := by
-  simp only [commit, bind, Except.bind, g6_e1, g6_e2, g6_e3, g6_e4, g6_e5]
+  simp only [commit, bind, Except.bind, g6_e1, g6_e2, g6_e3, g6_e4, g6_e5, g6_e6]
 
 /-- the commit yields exactly the new build: `s` is a regular file, `b` has its new content -/
 theorem g6_ok : ∃ t', commit g6Old g6New g6Work [["b"]] [["b"]] (treeOfBuild g6Old) = .ok t' ∧ Holds t' g6New :=
@@ -593,7 +604,7 @@ theorem g7_hyps : OtherHyps g7Old g7New g7Work [["x"]] [["x"]] :=
       (by decide) (by decide), by decide, by decide⟩
 /-- the instance is inside `BenignKindChanges` now that nothing is asked of the transposition outputs -/
 theorem g7_benign : BenignKindChanges g7Old g7New g7Work :=
-  BenignKindChanges.of_check (by decide) (by decide) (by decide) (by decide)
+  BenignKindChanges.of_check (by decide) (by decide) (by decide)
 theorem g7_clash : ¬ NoKindClash g7Old g7New :=
   not_noKindClash ["e"] .dir .file (by decide) (by decide) (by decide)
 theorem g7_commit : commit g7Old g7New g7Work [["x"]] [["x"]] (treeOfBuild g7Old) = .ok g7T5 :=
@@ -607,11 +618,107 @@ example : ∃ t', commit g7Old g7New g7Work [["x"]] [["x"]] (treeOfBuild g7Old) 
   commit_correct_kinds_partial _ _ _ _ _ g7_hyps.oldWF g7_hyps.newWF g7_benign g7_hyps.work g7_hyps.perm₁
     g7_hyps.perm₂
 
-/-! ### every clause is needed: instances that violate one clause, on which `commit` fails or goes wrong
+/-! ### the shapes repaired by the reordering of `Commit` (finding F27): two more former counterexamples
+
+  F8 (4) and (8) were machine-checked instances on which the model's `commit` — and the code — failed or went
+  wrong: the new symlinks were put in place together with the new directories, BEFORE the transpositions, so an
+  old file that a transposition still had to rename or copy was gone when its turn came — removed with the old
+  directory a new symlink replaced (F8 (4)), or itself replaced by the new symlink (8).  Since the repair of
+  finding F27 `Commit` puts the symlinks in place after the transpositions, the staged moves and the overlays
+  (`ensureDirs`, …, `applyOverlays`, `ensureSymlinks`, `deleteGhosts`); the model follows.  The instances are
+  kept, with the opposite conclusion: the commit yields exactly the new build (`f8_4_ok`, `g8_ok`, by
+  evaluation).  Each is OUTSIDE `NoKindClash` (`*_clash`) and, the clause `dirToSymlink` and the second half of
+  `sources` being gone, INSIDE `BenignKindChanges` (`*_benign`). -/
+
+/-! #### F8 (4) dir → symlink, a file of the directory renamed out.  Formerly a counterexample (the fourth
+    recorded shape of finding F8): the directory `d` was cleared (`os.RemoveAll`) and replaced by the symlink
+    before the transposition `d/x → o/x` read the file; the source path then went through the dangling symlink,
+    ENOENT.  Now the file is renamed first, the directory gives way to the symlink afterwards. -/
+def f4Old : Build := { dirs := [["d"]], files := [(["d", "x"], [1]), (["k"], [3])] }
+def f4New : Build := { dirs := [["o"]], symlinks := [(["d"], "b")], files := [(["o", "x"], [1]), (["k"], [3])] }
+def f4Work : Work := { transpositions := [(0, 0), (1, 1)] }
+/-- after `ensureDirs` -/
+def f4T1 : Tree := { entries := [(["d"], .dir), (["d", "x"], .file [1]), (["k"], .file [3]), (["o"], .dir)] }
+/-- after the transpositions: `d/x` has been renamed to `o/x`, the directory `d` is still there -/
+def f4T2 : Tree := { entries := [(["d"], .dir), (["k"], .file [3]), (["o"], .dir), (["o", "x"], .file [1])] }
+/-- after `ensureSymlinks` -/
+def f4T5 : Tree := { entries := [(["k"], .file [3]), (["o"], .dir), (["o", "x"], .file [1]), (["d"], .symlink "b")] }
+
+theorem f8_4_hyps : OtherHyps f4Old f4New f4Work [["d", "x"], ["k"]] [["d", "x"], ["k"]] :=
+  ⟨⟨by decide, by decide, parents_of_check (by decide)⟩, ⟨by decide, by decide, parents_of_check (by decide)⟩,
+    WorkOK.of_check (by decide) (by decide) (by decide) (by decide) (by decide) (by decide) (by decide)
+      (by decide) (by decide), by decide, by decide⟩
+/-- the instance is inside `BenignKindChanges` now that nothing is asked of what lies below a directory that
+    becomes a symlink -/
+theorem f8_4_benign : BenignKindChanges f4Old f4New f4Work :=
+  BenignKindChanges.of_check (by decide) (by decide) (by decide)
+theorem f8_4_clash : ¬ NoKindClash f4Old f4New :=
+  not_noKindClash ["d"] .dir .symlink (by decide) (by decide) (by decide)
+
+theorem f8_4_e1 : f4New.dirs.foldlM ensureDir (treeOfBuild f4Old) = .ok f4T1 := eq_of_yields (by decide +kernel)
+/-- the source `d/x` is still there: it is renamed to `o/x` -/
+theorem f8_4_e2 :
+    applyTranspositions f4Old f4New f4Work [["d", "x"], ["k"]] [["d", "x"], ["k"]] f4T1 = .ok f4T2 :=
+  eq_of_yields (by decide +kernel)
+theorem f8_4_e3 : applyMoves f4New f4Work f4T2 = .ok f4T2 := eq_of_yields (by decide +kernel)
+theorem f8_4_e4 : applyOverlays f4New f4Work f4T2 = .ok f4T2 := eq_of_yields (by decide +kernel)
+/-- the (now empty) directory `d` gives way to the symlink -/
+theorem f8_4_e5 : f4New.symlinks.foldlM (fun t (p, d) => ensureSymlink t p d) f4T2 = .ok f4T5 :=
+  eq_of_yields (by decide +kernel)
+/-- the ghost `d/x` lies below the new symlink `d`: it is skipped -/
+theorem f8_4_e6 : deleteGhosts f4Old f4New f4T5 = .ok f4T5 := eq_of_yields (by decide +kernel)
+
+theorem f8_4_commit :
+    commit f4Old f4New f4Work [["d", "x"], ["k"]] [["d", "x"], ["k"]] (treeOfBuild f4Old) = .ok f4T5 := by
+  simp only [commit, bind, Except.bind, f8_4_e1, f8_4_e2, f8_4_e3, f8_4_e4, f8_4_e5, f8_4_e6]
+
+/-- the commit yields exactly the new build: `o/x` holds the content of the old `d/x`, `d` is the symlink -/
+theorem f8_4_ok :
+    ∃ t', commit f4Old f4New f4Work [["d", "x"], ["k"]] [["d", "x"], ["k"]] (treeOfBuild f4Old) = .ok t' ∧
+      Holds t' f4New :=
+  ⟨f4T5, f8_4_commit, holds_of_check (by decide)⟩
+
+/-- it also follows from the theorem -/
+example :
+    ∃ t', commit f4Old f4New f4Work [["d", "x"], ["k"]] [["d", "x"], ["k"]] (treeOfBuild f4Old) = .ok t' ∧
+      Holds t' f4New :=
+  commit_correct_kinds_partial _ _ _ _ _ f8_4_hyps.oldWF f8_4_hyps.newWF f8_4_benign f8_4_hyps.work
+    f8_4_hyps.perm₁ f8_4_hyps.perm₂
+
+/-! #### (8) file → symlink, the old file renamed ELSEWHERE.  Formerly a counterexample (finding F27): the old
+    file `a` was replaced by the new symlink before the transposition `a → c` ran, and the transposition then
+    renamed THE SYMLINK: Commit reported success, `c` was a symlink instead of the file, and `a` was gone.  Now
+    the file is renamed first, the symlink is created afterwards. -/
+def g8Old : Build := { files := [(["a"], [1])] }
+def g8New : Build := { symlinks := [(["a"], "b")], files := [(["c"], [1])] }
+def g8Work : Work := { transpositions := [(0, 0)] }
+def g8T5 : Tree := { entries := [(["c"], .file [1]), (["a"], .symlink "b")] }
+
+theorem g8_hyps : OtherHyps g8Old g8New g8Work [["a"]] [["a"]] :=
+  ⟨⟨by decide, by decide, parents_of_check (by decide)⟩, ⟨by decide, by decide, parents_of_check (by decide)⟩,
+    WorkOK.of_check (by decide) (by decide) (by decide) (by decide) (by decide) (by decide) (by decide)
+      (by decide) (by decide), by decide, by decide⟩
+/-- the instance is inside `BenignKindChanges` now that a transposition source may become a symlink -/
+theorem g8_benign : BenignKindChanges g8Old g8New g8Work :=
+  BenignKindChanges.of_check (by decide) (by decide) (by decide)
+theorem g8_clash : ¬ NoKindClash g8Old g8New :=
+  not_noKindClash ["a"] .file .symlink (by decide) (by decide) (by decide)
+theorem g8_commit : commit g8Old g8New g8Work [["a"]] [["a"]] (treeOfBuild g8Old) = .ok g8T5 :=
+  eq_of_yields (by decide +kernel)
+
+/-- the commit yields exactly the new build: `c` is the regular file, `a` is the symlink -/
+theorem g8_ok : ∃ t', commit g8Old g8New g8Work [["a"]] [["a"]] (treeOfBuild g8Old) = .ok t' ∧ Holds t' g8New :=
+  ⟨g8T5, g8_commit, holds_of_check (by decide)⟩
+
+example : ∃ t', commit g8Old g8New g8Work [["a"]] [["a"]] (treeOfBuild g8Old) = .ok t' ∧ Holds t' g8New :=
+  commit_correct_kinds_partial _ _ _ _ _ g8_hyps.oldWF g8_hyps.newWF g8_benign g8_hyps.work g8_hyps.perm₁
+    g8_hyps.perm₂
+
+/-! ### every clause is needed: instances that violate one clause, on which `commit` fails
 
   Each instance satisfies ALL other hypotheses of the theorem (`BuildWF` of both builds, `WorkOK`, the orders
   are permutations of the sources: `*_hyps`), violates `BenignKindChanges` (`*_not_benign`), and the model's
-  `commit` returns an error or a tree that is not the new build (`*_fails`, `*_wrong`). -/
+  `commit` returns an error (`*_fails`). -/
 
 /-! #### F8 (1) dir → file, a NEW file on a NON-EMPTY old directory (violates `emptyDir`): ENOTEMPTY -/
 def f1Work : Work := { moveFiles := [0] }
@@ -642,7 +749,7 @@ theorem f8_2_fails :
   decide
 
 /-! #### F8 (3) file → dir, the directory holding the old file renamed (violates `sources`): the file is
-    cleared by `ensureDirsAndSymlinks`, the transposition finds a directory, EISDIR -/
+    cleared by `ensureDirs`, the transposition finds a directory, EISDIR -/
 def f3Old : Build := { files := [(["f"], [1]), (["k"], [3])] }
 def f3New : Build := { dirs := [["f"]], files := [(["f", "inner"], [1]), (["k"], [3])] }
 def f3Work : Work := { transpositions := [(0, 0), (1, 1)] }
@@ -652,77 +759,10 @@ theorem f8_3_hyps : OtherHyps f3Old f3New f3Work [["f"], ["k"]] [["f"], ["k"]] :
     WorkOK.of_check (by decide) (by decide) (by decide) (by decide) (by decide) (by decide) (by decide)
       (by decide) (by decide), by decide, by decide⟩
 theorem f8_3_not_benign : ¬ BenignKindChanges f3Old f3New f3Work :=
-  fun h => (h.sources ["f"] (by decide)).1 (by decide)
+  fun h => h.sources ["f"] (by decide) (by decide)
 theorem f8_3_fails :
     failsWith (commit f3Old f3New f3Work [["f"], ["k"]] [["f"], ["k"]] (treeOfBuild f3Old)) .eisdir = true := by
   decide
-
-/-! #### F8 (4) dir → symlink, a file of the directory renamed out (violates `dirToSymlink`): the
-    directory is cleared before the transposition reads the file; the source path now goes through the
-    dangling symlink, ENOENT -/
-def f4Old : Build := { dirs := [["d"]], files := [(["d", "x"], [1]), (["k"], [3])] }
-def f4New : Build := { dirs := [["o"]], symlinks := [(["d"], "b")], files := [(["o", "x"], [1]), (["k"], [3])] }
-def f4Work : Work := { transpositions := [(0, 0), (1, 1)] }
-def f4T1 : Tree := { entries := [(["k"], .file [3]), (["o"], .dir), (["d"], .symlink "b")] }
-
-theorem f8_4_hyps : OtherHyps f4Old f4New f4Work [["d", "x"], ["k"]] [["d", "x"], ["k"]] :=
-  ⟨⟨by decide, by decide, parents_of_check (by decide)⟩, ⟨by decide, by decide, parents_of_check (by decide)⟩,
-    WorkOK.of_check (by decide) (by decide) (by decide) (by decide) (by decide) (by decide) (by decide)
-      (by decide) (by decide), by decide, by decide⟩
-theorem f8_4_not_benign : ¬ BenignKindChanges f4Old f4New f4Work :=
-  fun h => absurd (h.dirToSymlink (["d"], "b") (by decide) (by decide) ["d", "x"] (by decide)) (by decide)
-
-theorem f8_4_e1 : ensureAll f4New (treeOfBuild f4Old) = .ok f4T1 := eq_of_yields (by decide +kernel)
-
-theorem f8_4_canon : canon f4T1 ["d", "x"] = .error .enoent := by
-  show resolve f4T1 (39 + 1) [] ("d" :: "x" :: []) = _
-  rw [Commit.resolve_symlink_step _ _ _ _ _ _ "b" (by decide) (by rfl) Commit.startsWith_b, Commit.splitDest_b]
-  rfl
-
-theorem f8_4_move : moveFile f4T1 ["d", "x"] ["o", "x"] = .error .enoent := by
-  have hrm : remove f4T1 ["o", "x"] = .error .enoent := rfl
-  have hmk : mkdirs f4T1 (["o", "x"] : Path).dropLast = .ok f4T1 := rfl
-  have hrn : rename f4T1 ["d", "x"] ["o", "x"] = .error .enoent := by
-    simp only [rename, f8_4_canon, bind, Except.bind]
-  have hrd : readFile f4T1 ["d", "x"] = .error .enoent := by
-    simp only [readFile, statFollow, f8_4_canon, bind, Except.bind]
-  simp only [moveFile, hrm, hmk, hrn, copyFile, hrd, bind, Except.bind]
-  rfl
-
-theorem f8_4_e2 :
-    applyTranspositions f4Old f4New f4Work [["d", "x"], ["k"]] [["d", "x"], ["k"]] f4T1 = .error .enoent := by
-  rw [Commit.applyTranspositions_eq]
-  show (do
-    let t ← List.foldlM
-      (fun t (x : Path × List Transpo) => applyGroup t ((Commit.ovPaths f4New f4Work).contains x.1) x.1 x.2)
-      f4T1 [(["d", "x"], [⟨["d", "x"], ["o", "x"]⟩]), (["k"], [⟨["k"], ["k"]⟩])]
-    List.foldlM (fun t (c : Transpo) => moveFile t c.targetPath c.outputPath) t []) = _
-  have hg : applyGroup f4T1 ((Commit.ovPaths f4New f4Work).contains ["d", "x"]) ["d", "x"]
-      [⟨["d", "x"], ["o", "x"]⟩] = moveFile f4T1 ["d", "x"] ["o", "x"] := by rfl
-  simp only [List.foldlM_cons, hg, f8_4_move, bind, Except.bind]
-
-theorem f8_4_fails :
-    failsWith (commit f4Old f4New f4Work [["d", "x"], ["k"]] [["d", "x"], ["k"]] (treeOfBuild f4Old)) .enoent =
-      true := by
-  simp only [commit, bind, Except.bind, f8_4_e1, f8_4_e2]
-  rfl
-
-/-! #### (8) file → symlink, the old file renamed ELSEWHERE (violates `sources`): the old file is replaced by
-    the new symlink before the transposition runs, and the transposition then renames THE SYMLINK.  Commit
-    reports success; `c` is a symlink instead of the file, and `a` is gone. -/
-def g8Old : Build := { files := [(["a"], [1])] }
-def g8New : Build := { symlinks := [(["a"], "b")], files := [(["c"], [1])] }
-def g8Work : Work := { transpositions := [(0, 0)] }
-
-theorem g8_hyps : OtherHyps g8Old g8New g8Work [["a"]] [["a"]] :=
-  ⟨⟨by decide, by decide, parents_of_check (by decide)⟩, ⟨by decide, by decide, parents_of_check (by decide)⟩,
-    WorkOK.of_check (by decide) (by decide) (by decide) (by decide) (by decide) (by decide) (by decide)
-      (by decide) (by decide), by decide, by decide⟩
-theorem g8_not_benign : ¬ BenignKindChanges g8Old g8New g8Work :=
-  fun h => (h.sources ["a"] (by decide)).2 (by decide)
-theorem g8_wrong :
-    yields (commit g8Old g8New g8Work [["a"]] [["a"]] (treeOfBuild g8Old)) [(["c"], .symlink "b")] = true := by
-  decide +kernel
 
 /-! #### (9) file → dir, the new directories listed child first (violates `dirOrder`): `mkdir -p a/x` meets the
     old file `a`, ENOTDIR.  (Model only: `tlc.Walk` lists a directory before its children.) -/
@@ -742,29 +782,152 @@ def g9New' : Build := { dirs := [["a"], ["a", "x"]] }
 theorem g9_reordered_ok : ∃ t', commit g9Old g9New' {} [] [] (treeOfBuild g9Old) = .ok t' ∧ Holds t' g9New' :=
   commit_correct_kinds_partial _ _ _ _ _ ⟨by decide, by decide, parents_of_check (by decide)⟩
     ⟨by decide, by decide, parents_of_check (by decide)⟩
-    (BenignKindChanges.of_check (by decide) (by decide) (by decide) (by decide))
+    (BenignKindChanges.of_check (by decide) (by decide) (by decide))
     (WorkOK.of_check (by decide) (by decide) (by decide) (by decide) (by decide) (by decide) (by decide)
       (by decide) (by decide)) (by decide) (by decide)
 
+/-! ### what the reordering changes OUTSIDE `BenignKindChanges`
+
+  Inside `BenignKindChanges` — the former, stronger one as well as the present one — the commit is right before
+  and after the repair of F27 (`commit_correct_kinds_partial`; the former predicate implies the present one).
+  Outside, an exhaustive comparison of the two orders with the compiled model on some 34 million runs over small
+  builds (three top-level names, directories with up to two entries, every admissible work record) found, next to
+  3.1 million runs the reordering repairs, two ways in which it does harm.  Both are confined to the known
+  failing classes F8 (1)-(3), which `BenignKindChanges` excludes; one instance of each is kept here.
+
+  (10) violates `emptyDir` (class F8 (1)).  The former order got it right BY ACCIDENT: the transposition source
+  `a/y` was looked up through the symlink that had already replaced `a`, the file found there was `b/y` — which
+  happens to have the same content — and renaming it away emptied the directory `b` just in time for the file `b`
+  to replace it.  Now the right file is renamed, `b` is not empty, and the staged move fails as in F8 (1):
+  ENOTEMPTY (`h10_before_ok`, `h10_fails`).  All 1798 runs of this kind violate `emptyDir`.
+
+  (11) violates `sources` (class F8 (3)).  Both orders rename the DIRECTORY `b` that `ensureDirs` put in place of
+  the source `b`, and so go wrong; the former order then failed (ENOENT) because the other source, `c`, had been
+  replaced by the new symlink, the present one renames `c` correctly and reports success: `a` is a directory
+  instead of a file (`h11_before_fails`, `h11_wrong`).  That F8 (3) may end in a wrong tree with success
+  reported, rather than in an error, is not new (drop `c` from the instance); all 80479 runs in which an error
+  turned into such a tree violate `sources`. -/
+
+/-- `Commit` as it was before the repair of finding F27: the new symlinks are put in place together with the new
+    directories, before the transpositions (`ensureDirsAndSymlinks`). -/
+def commitBeforeF27 (old new : Build) (w : Work) (o₁ o₂ : List Path) (t : Tree) : Except Err Tree := do
+  let t ← ensureAll new t
+  let t ← applyTranspositions old new w o₁ o₂ t
+  let t ← applyMoves new w t
+  let t ← applyOverlays new w t
+  deleteGhosts old new t
+
+/-! #### (10) dir → symlink, a file of the directory renamed out, and the symlink's destination a NON-EMPTY
+    directory that becomes a file and holds a file of the same name and content -/
+def h10Old : Build := { dirs := [["a"], ["b"]], files := [(["a", "y"], [1]), (["b", "y"], [1])] }
+def h10New : Build := { symlinks := [(["a"], "b")], files := [(["b"], [1]), (["c"], [1])] }
+def h10Work : Work := { transpositions := [(1, 0)], moveFiles := [0] }
+def h10T1 : Tree := { entries := [(["b"], .dir), (["b", "y"], .file [1]), (["a"], .symlink "b")] }
+def h10T2 : Tree := { entries := [(["b"], .dir), (["a"], .symlink "b"), (["c"], .file [1])] }
+def h10T3 : Tree := { entries := [(["a"], .symlink "b"), (["c"], .file [1]), (["b"], .file [1])] }
+
+theorem h10_hyps : OtherHyps h10Old h10New h10Work [["a", "y"]] [["a", "y"]] :=
+  ⟨⟨by decide, by decide, parents_of_check (by decide)⟩, ⟨by decide, by decide, parents_of_check (by decide)⟩,
+    WorkOK.of_check (by decide) (by decide) (by decide) (by decide) (by decide) (by decide) (by decide)
+      (by decide) (by decide), by decide, by decide⟩
+theorem h10_not_benign : ¬ BenignKindChanges h10Old h10New h10Work :=
+  fun h => absurd (h.emptyDir ["b"] (by decide) (by decide) ["b", "y"] (by decide)) (by decide)
+theorem h10_fails :
+    failsWith (commit h10Old h10New h10Work [["a", "y"]] [["a", "y"]] (treeOfBuild h10Old)) .enotempty = true := by
+  decide
+
+theorem h10_b1 : ensureAll h10New (treeOfBuild h10Old) = .ok h10T1 := eq_of_yields (by decide +kernel)
+
+theorem h10_canon : canon h10T1 ["a", "y"] = .ok ["b", "y"] := by
+  show resolve h10T1 (39 + 1) [] ("a" :: "y" :: []) = _
+  rw [Commit.resolve_symlink_step _ _ _ _ _ _ "b" (by decide) (by rfl) Commit.startsWith_b, Commit.splitDest_b]
+  rfl
+
+theorem h10_move : moveFile h10T1 ["a", "y"] ["c"] = .ok h10T2 := by
+  have hrm : remove h10T1 ["c"] = .error .enoent := rfl
+  have hmk : mkdirs h10T1 (["c"] : Path).dropLast = .ok h10T1 := rfl
+  have hrn : rename h10T1 ["a", "y"] ["c"] = .ok h10T2 := by
+    simp only [rename, h10_canon, bind, Except.bind]
+    rfl
+  simp only [moveFile, hrm, hmk, hrn, bind, Except.bind]
+  rfl
+
+theorem h10_b2 : applyTranspositions h10Old h10New h10Work [["a", "y"]] [["a", "y"]] h10T1 = .ok h10T2 := by
+  rw [Commit.applyTranspositions_eq]
+  show (do
+    let t ← List.foldlM
+      (fun t (x : Path × List Transpo) => applyGroup t ((Commit.ovPaths h10New h10Work).contains x.1) x.1 x.2)
+      h10T1 [(["a", "y"], [⟨["a", "y"], ["c"]⟩])]
+    List.foldlM (fun t (c : Transpo) => moveFile t c.targetPath c.outputPath) t []) = _
+  have hg : applyGroup h10T1 ((Commit.ovPaths h10New h10Work).contains ["a", "y"]) ["a", "y"]
+      [⟨["a", "y"], ["c"]⟩] = moveFile h10T1 ["a", "y"] ["c"] := by rfl
+  simp only [List.foldlM_cons, List.foldlM_nil, hg, h10_move, bind, Except.bind]
+  rfl
+
+theorem h10_b3 : applyMoves h10New h10Work h10T2 = .ok h10T3 := eq_of_yields (by decide +kernel)
+theorem h10_b4 : applyOverlays h10New h10Work h10T3 = .ok h10T3 := eq_of_yields (by decide +kernel)
+/-- ghost deletion when every ghost lies below a file or a symlink of the new build: all are skipped, in
+    whatever order they come -/
+theorem ghosts_all_skipped (leaves : List Path) (t : Tree) : ∀ (L : List (Path × Bool)),
+    (∀ x ∈ L, leaves.any (fun l => isPrefix l x.1) = true) → L.foldlM (Commit.ghostStep leaves) t = .ok t
+  | [], _ => rfl
+  | x :: L, h => by
+    have hx : Commit.ghostStep leaves t x = .ok t := by
+      simp only [Commit.ghostStep, h x (by simp), if_true]
+    simp only [List.foldlM_cons, hx, bind, Except.bind]
+    exact ghosts_all_skipped leaves t L (fun y hy => h y (by simp [hy]))
+
+/-- both ghosts, `a/y` and `b/y`, lie below a path that is now a symlink or a file -/
+theorem h10_b5 : deleteGhosts h10Old h10New h10T3 = .ok h10T3 := by
+  rw [Commit.deleteGhosts_eq]
+  apply ghosts_all_skipped
+  have hall : ∀ x ∈ Commit.ghostList h10Old h10New,
+      (Commit.leavesOf h10New).any (fun l => isPrefix l x.1) = true := by decide
+  exact fun x hx => hall x (List.mem_mergeSort.mp hx)
+
+theorem h10_before_ok :
+    ∃ t', commitBeforeF27 h10Old h10New h10Work [["a", "y"]] [["a", "y"]] (treeOfBuild h10Old) = .ok t' ∧
+      Holds t' h10New := by
+  refine ⟨h10T3, ?_, holds_of_check (by decide)⟩
+  simp only [commitBeforeF27, bind, Except.bind, h10_b1, h10_b2, h10_b3, h10_b4, h10_b5]
+
+/-! #### (11) file → dir, the old file renamed elsewhere (F8 (3)), and a file → symlink whose old file is copied
+    elsewhere -/
+def h11Old : Build := { files := [(["b"], [1]), (["c"], [1])] }
+def h11New : Build :=
+  { dirs := [["b"]]
+    symlinks := [(["c"], "/n")]
+    files := [(["a"], [1]), (["b", "x"], [1]), (["b", "y"], [1])] }
+def h11Work : Work := { transpositions := [(0, 0), (1, 1), (2, 1)] }
+
+theorem h11_hyps : OtherHyps h11Old h11New h11Work [["b"], ["c"]] [["b"], ["c"]] :=
+  ⟨⟨by decide, by decide, parents_of_check (by decide)⟩, ⟨by decide, by decide, parents_of_check (by decide)⟩,
+    WorkOK.of_check (by decide) (by decide) (by decide) (by decide) (by decide) (by decide) (by decide)
+      (by decide) (by decide), by decide, by decide⟩
+theorem h11_not_benign : ¬ BenignKindChanges h11Old h11New h11Work :=
+  fun h => h.sources ["b"] (by decide) (by decide)
+/-- before the repair of F27: an error -/
+theorem h11_before_fails :
+    failsWith (commitBeforeF27 h11Old h11New h11Work [["b"], ["c"]] [["b"], ["c"]] (treeOfBuild h11Old)) .enoent =
+      true := by
+  decide +kernel
+/-- now: success reported, `a` is a directory -/
+theorem h11_wrong :
+    yields (commit h11Old h11New h11Work [["b"], ["c"]] [["b"], ["c"]] (treeOfBuild h11Old))
+      [(["a"], .dir), (["b"], .dir), (["b", "y"], .file [1]), (["b", "x"], .file [1]), (["c"], .symlink "/n")] =
+      true := by
+  decide +kernel
+
 /-! ### the full-strength statement is false (F8), and so is it for each of the instances above
 
-  (`commitCorrect_false_5`, `_6`, `_7` are gone with the defects they relied on: on (5), (6), (7) the commit is
-  right now.) -/
+  (`commitCorrect_false_5`, `_6`, `_7` and, since the repair of F27, `_4` and `_8` are gone with the defects they
+  relied on: on (5), (6), (7), F8 (4), (8) the commit is right now.) -/
 
 theorem commitCorrect_false : ¬ CommitCorrect :=
   not_commitCorrect_of f8_1_hyps (not_ok_of_failsWith f8_1_fails _)
 
 theorem commitCorrect_false_2 : ¬ CommitCorrect := not_commitCorrect_of f8_2_hyps (not_ok_of_failsWith f8_2_fails _)
 theorem commitCorrect_false_3 : ¬ CommitCorrect := not_commitCorrect_of f8_3_hyps (not_ok_of_failsWith f8_3_fails _)
-theorem commitCorrect_false_4 : ¬ CommitCorrect := not_commitCorrect_of f8_4_hyps (not_ok_of_failsWith f8_4_fails _)
-theorem commitCorrect_false_8 : ¬ CommitCorrect := by
-  apply not_commitCorrect_of g8_hyps
-  rintro ⟨t', ht', hh⟩
-  rw [eq_of_yields g8_wrong] at ht'
-  cases ht'
-  have := hh ["c"]
-  revert this
-  decide
 theorem commitCorrect_false_9 : ¬ CommitCorrect := not_commitCorrect_of g9_hyps (not_ok_of_failsWith g9_fails _)
 
 /-! ### what remains
@@ -776,10 +939,11 @@ theorem commitCorrect_false_9 : ¬ CommitCorrect := not_commitCorrect_of g9_hyps
     by the transpositions before the file arrives; whether that is the case depends on the visiting order, and
     the instances F8 (1), F8 (2) show the failure.
 
-  `sources`, `dirToSymlink` and `dirOrder` are exact up to accidents (a cleared source is lost; a directory listed
-  before the file or symlink above it is created in the wrong place or not at all).
+  `sources` and `dirOrder` are exact up to accidents (a cleared source is lost; a directory listed before the file
+  or symlink above it is created in the wrong place or not at all).  Both are about `ensureDirs`, which still
+  runs first: a new directory has to be there before files are renamed, copied or staged into it.
 
-  Gone with the repairs of F25 and F26 (they used to be listed here as excluding too much):
+  Gone with the repairs of F25, F26 and F27 (they used to be listed here as excluding too much, or as necessary):
   * `outputs` — a transposition output may now land on an old symlink or on an empty old directory whether it is
     written by `move` or by `copy`: both remove such a destination first.  In the helper lemmas the transposition
     phase is no longer described by `SameNF` ("only regular files change") but by `Commit.SameX` (at a new file
@@ -787,6 +951,12 @@ theorem commitCorrect_false_9 : ¬ CommitCorrect := not_commitCorrect_of g9_hyps
     the destinations are `Commit.XSlot`s.
   * `dirToSymlink`, second part (`DeadEnd`) — ghosts below a path that has become a symlink are skipped, not
     looked up through the symlink.
+  * `dirToSymlink`, first part, and `sources`, second part — the new symlinks are put in place after the
+    transpositions, the staged moves and the overlays.  In the helper lemmas the state after the first phase
+    (`Commit.Ensured`) no longer mentions symlinks and is the same with and without kind changes; the symlink
+    pass (`Commit.ensureSymlinks_spec'`) runs on the tree in which all new directories and files are in place and
+    leaves them alone — no path of the new build is the path of a new symlink or lies below one
+    (`Commit.BWF.not_below_symlink`) — whatever it removes is an old path that is not part of the new build.
 
   Difference between model and code noticed on the way: `Commit.copyFile` reads the whole source before it opens
   the destination; `overlayBowl.copy` opens the destination with `O_TRUNC` while the source is open.  They differ
@@ -800,7 +970,11 @@ theorem commitCorrect_false_9 : ¬ CommitCorrect := not_commitCorrect_of g9_hyps
 -- #print axioms commit_correct_partial_of_kinds   -- [propext, Classical.choice, Quot.sound]
 -- #print axioms BenignKindChanges.outputs         -- [propext, Quot.sound]
 -- #print axioms b1_ok                             -- (b1 … b7: the same three)
--- #print axioms f8_4_fails                        -- [propext, Classical.choice, Quot.sound]
+-- #print axioms f8_4_ok                           -- [propext, Classical.choice, Quot.sound]
+-- #print axioms g8_ok                             -- [propext, Classical.choice, Quot.sound]
+-- #print axioms h10_before_ok                     -- [propext, Classical.choice, Quot.sound]
+-- #print axioms h10_fails                         -- [propext, Classical.choice, Quot.sound]
+-- #print axioms h11_wrong                         -- [propext, Classical.choice, Quot.sound]
 -- #print axioms g5_ok                             -- [propext, Classical.choice, Quot.sound]
 -- #print axioms g6_ok                             -- [propext, Classical.choice, Quot.sound]
 -- #print axioms g7_ok                             -- [propext, Classical.choice, Quot.sound]
